@@ -34,16 +34,27 @@ def filler(g, rng):
     return Decl([v], Num(str(rng.randint(0, 9))))
 
 
+def ml(rng, args):
+    """with some probability the call gets a multi-line text as its first argument: the statement then spans several physical
+    lines, and its line is the one it STARTS on"""
+    if rng.random() < 0.3:
+        return [Str(rng.choice(['上\n下', '一\n二\n三', '末\n']))] + args
+    return args
+
+
 def fault(g, rng):
     k = rng.random()
     if k < 0.25:
         return Throw('异常', [Str('误')]), None
     if k < 0.45:
-        return ExprS(Call('显示', [Bin('/', Num('1'), Num('0'))])), None
+        return ExprS(Call('显示', ml(rng, [Bin('/', Num('1'), Num('0'))]))), None
     if k < 0.6:
-        return ExprS(Call('显示', [Var('未定名')])), None
-    if k < 0.75:
-        return ExprS(Call('显示', [Index(Arr([Num('1')]), Num('5'))])), None
+        return ExprS(Call('显示', ml(rng, [Var('未定名')]))), None
+    if k < 0.7:
+        return ExprS(Call('显示', ml(rng, [Index(Arr([Num('1')]), Num('5'))]))), None
+    if k < 0.78:
+        # an assignment whose right-hand side spans lines
+        return ExprS(Assign(Var('未定名'), Arr([Str('上\n下'), Num('2')]))), None
     if k < 0.9:
         return ExprS(MCall(Arr([Num('1')]), [('交换', [Num('5'), Num('6')])])), 'native'
     return ExprS(MCall(Num('1'), [('无此法', [])])), 'native'
@@ -55,8 +66,13 @@ def gen(g, rng):
     # an earlier handled exception: its frames must not show up later
     handled = rng.random() < 0.5
     if handled:
-        body.append(Func('先败', [], [ExprS(Call('显示', [Str('试')])), ExprS(Call('内败', []))],
-                         [('异常', [Ret(Num('0'))])]))
+        # … whatever number of calls the exception crossed before it was taken
+        hd = rng.randint(1, 3)
+        chain = ['内败'] + ['中败%d' % i for i in range(1, hd)]
+        body.append(Func('先败', [], [ExprS(Call('显示', [Str('试')])), ExprS(Call(chain[-1], []))],
+                         [('异常', [Ret(Num('0'))])] if rng.random() < 0.7 else [('异常', [ExprS(Call('显示', [Str('拦')]))])]))
+        for i in range(len(chain) - 1, 0, -1):
+            body.append(Func(chain[i], [], [ExprS(Call('显示', [Call(chain[i - 1], [])])), Ret(Num('2'))]))
         body.append(Func('内败', [], [Throw('异常', [Str('早')])]))
     names = ['层%d' % i for i in range(1, depth + 1)]
     fstmt, tail = fault(g, rng)
@@ -66,7 +82,7 @@ def gen(g, rng):
         if i == depth:
             inner = fstmt
         else:
-            inner = ExprS(Call('显示', [Call(names[i], [])]))
+            inner = ExprS(Call('显示', ml(rng, [Call(names[i], [])])))
             inner.tag = 'call_%d' % i
         k = rng.random()
         if k < 0.3:
@@ -86,7 +102,7 @@ def gen(g, rng):
     if depth == 0:
         main.append(fstmt)
     else:
-        c0 = ExprS(Call('显示', [Call(names[0], [])]))
+        c0 = ExprS(Call('显示', ml(rng, [Call(names[0], [])])))
         c0.tag = 'call_0'
         main.append(c0)
     main.append(ExprS(Call('显示', [Str('不达')])))
